@@ -137,7 +137,9 @@ struct H {
 
     static rc::Gen<Case> gen() {
         using namespace rc;
-        auto prefix = pbt::pick<std::string>({"", "", "x", "abc=", "0123456789abcdef", "[1,2,", "................................"});
+        auto prefix = pbt::pick<std::string>({"", "", "x", "abc=", "0123456789abcdef", "[1,2,", "................................",
+                                               // what a formatter might take for part of its own number when it looks in front of it
+                                               "-", "3-", "1e", "0.", "9", "e+", "-0", "1.9"});
         auto reals  = gen::map(gen::tuple(numgen::double_gen(), pbt::range<unsigned>(0, 40), pbt::range<int>(0, 2), pbt::pick<int>({1, 1, 2, 4, 3}), prefix,
                                           pbt::range<int>(0, 9)),
                                [](std::tuple<numgen::Real, unsigned, int, int, std::string, int> t) {
@@ -193,7 +195,7 @@ struct H {
         for (int i = 0; i < (c.kind == 0 ? 8 : 4); ++i) {
             c.bits = (c.bits << 8) | f.sel();
         }
-        c.prefix = (b0 & 32) ? "abc=" : "";
+        c.prefix = (b0 & 32) ? ((b0 & 64) ? "3-" : "abc=") : ((b0 & 64) ? "0." : "");
         c.cls    = "coverage-guided";
         return true;
     }
